@@ -83,6 +83,10 @@ def rule_dispatch(ctx, rep, rid="R-C12-dispatch"):
     b = hb[0]
     heads = [c.bb for c in b.calls() if (c.u or "") == "core::iter::traits::iterator::Iterator::next" and "Receiver" in ((c.ga or "") + (c.callee or "")) or
              (c.u or "") == "core::iter::traits::iterator::Iterator::next" and "crossbeam_channel" in (c.callee or "")]
+    if not heads:
+        # the same loop written `while let Ok(msg) = receiver.recv()`: the block that takes the next message is the recv() call
+        heads = [c.bb for c in b.calls() if (c.callee or "").split("::")[-1] in ("recv", "recv_timeout", "try_recv") and "Receiver" in (c.callee or "")
+                 and any(c.bb in b.reachable(s_) for s_ in b.succ(c.bb))]
     if len(heads) != 1:
         r.finding("run|loop-head", "%s:%d" % (b.f["file"], b.f["line"]), "expected one loop over the receiver, found %d" % len(heads))
         return
